@@ -70,6 +70,12 @@ pub struct GenCfg {
     /// references to the start (`-`) and the end (`+`) of the enclosing block
     #[serde(default)]
     pub block_labels: bool,
+    /// a variable that inner scopes redefine in terms of itself (sequential semantics)
+    #[serde(default)]
+    pub var_shadow: bool,
+    /// a name that both branches of an `.if` on a constant define, used outside of the `.if`
+    #[serde(default)]
+    pub cond_defs: bool,
 }
 
 impl Default for GenCfg {
@@ -100,6 +106,8 @@ impl GenCfg {
             shadow_forward_ref: true,
             constructs_boost: false,
             block_labels: true,
+            var_shadow: true,
+            cond_defs: false,
         }
     }
     pub fn full() -> GenCfg {
@@ -1169,7 +1177,7 @@ pub fn build(entropy: &[u32], cfg: &GenCfg) -> Built {
         b.stats.features.insert("forward_ref_to_shadowing_definition".into());
     }
 
-    if cfg.vars && b.e.chance(1, 8) {
+    if cfg.vars && cfg.var_shadow && b.e.chance(1, 8) {
         // a variable that an inner scope redefines in terms of itself: every use sees the value given last, in source order
         let v = b.fresh("v");
         main.push(Stmt::Var { name: v.clone(), e: Expr::num(b.e.range(0, 40)) });
@@ -1204,6 +1212,49 @@ pub fn build(entropy: &[u32], cfg: &GenCfg) -> Built {
     // constants must not (transitively) refer to themselves: a constant may only refer to labels and pure constants
     let mut stats = p2.stats.clone();
     fix_const_cycles(&mut prog);
+    if cfg.cond_defs {
+        let seed: Vec<u32> = entropy.iter().map(|v| v.rotate_left(11) ^ 0x5bd1_e995).collect();
+        let mut e4 = Ent::new(&seed);
+        let main = prog.main_mut();
+        for k in 0..e4.below(3) {
+            let sel = format!("zzsel{}", k);
+            let name = format!("zzcd{}", k);
+            let use_of = |e: &mut Ent, as_label: bool| -> Stmt {
+                match (as_label, e.below(3)) {
+                    (true, 0) => Stmt::Instr { mn: "jmp".into(), form: Form::Plain, operand: Some(Expr::id(&name)) },
+                    (false, 0) => Stmt::Instr { mn: "lda".into(), form: Form::Imm, operand: Some(Expr::id(&name)) },
+                    (_, 1) => Stmt::Data { size: DataSize::Word, vals: vec![Expr::id(&name)] },
+                    _ => Stmt::Instr { mn: "lda".into(), form: Form::Plain, operand: Some(Expr::id(&name)) },
+                }
+            };
+            let as_label = e4.chance(1, 2);
+            let def = |e: &mut Ent, v: i64| -> Vec<Stmt> {
+                let mut b = vec![];
+                if as_label {
+                    b.push(Stmt::Label { name: name.clone(), block: None });
+                    b.push(Stmt::Instr { mn: (*e.pick(&["nop", "inx", "clc"])).into(), form: Form::None, operand: None });
+                } else {
+                    b.push(Stmt::Const { name: name.clone(), e: Expr::num(v) });
+                }
+                if e.chance(1, 2) {
+                    // (a use inside the branch itself)
+                    b.push(Stmt::Data { size: DataSize::Byte, vals: vec![Expr::Id { path: vec![name.clone()], modifier: Some('<') }] });
+                }
+                b
+            };
+            main.push(Stmt::Const { name: sel.clone(), e: Expr::num(e4.below(2) as i64) });
+            if e4.chance(1, 2) {
+                let u = use_of(&mut e4, as_label);
+                main.push(u);
+            }
+            let then = def(&mut e4, 11);
+            let els = def(&mut e4, 22);
+            let cond = if e4.chance(1, 2) { Expr::id(&sel) } else { Expr::bin(Expr::id(&sel), BinOp::Eq, Expr::num(1)) };
+            main.push(Stmt::If { cond, then, els: Some(els) });
+            let u = use_of(&mut e4, as_label);
+            main.push(u);
+        }
+    }
     if cfg.block_labels {
         let seed: Vec<u32> = entropy.iter().rev().map(|v| v.rotate_left(7) ^ 0x9e37_79b9).collect();
         let mut e3 = Ent::new(&seed);
